@@ -49,4 +49,28 @@ CHECKS = {
   "note": "Reference = DESIGN.md appendix B. A dict tag named _kind and a grid meta tag named ver are outside the model of this encoding.",
   "ref": "DESIGN.md section 3 C05",
  },
+ "C06": {
+  "technique": "exhaustive enumeration (zones x offset transitions x instants x precisions; all RFC 3339 offsets) plus property-based testing (proptest) against chrono / chrono-tz as oracle",
+  "level": "Every zone with an unambiguous city name is enumerated with the seconds around its offset transitions (every 4th transition in quick, all in thorough = exhaustive grid), every RFC 3339 offset in 15 min steps; random (zone, instant, precision) fill in between. Constructors, Zinc, Hayson and the C API getters must keep instant, offset and zone name. Held on everything explored.",
+  "note": "chrono and chrono-tz are trusted. Four zones sharing a city name with a different zone are out of scope and listed in the evidence.",
+  "ref": "DESIGN.md section 3 C06",
+ },
+ "C11": {
+  "technique": "metamorphic property-based testing (proptest): decode-encode-decode fixed point, chunked-reader vs buffer differential, byte-counting reader for the laziness bound",
+  "level": "Generated accepted texts (random legal spellings, accepted mutants, corpus files) must reach a fixed point after one normalisation; reader decoding with generated chunk/Interrupted schedules must equal buffer decoding and the lazy iterator must yield parse_grid's rows; each row must be handed out before more than (end of first token after the row + 16 bytes) were consumed. Held on everything explored.",
+  "note": "Row offsets are known because the harness assembles the grid text row by row. The 16 byte slack is the scanner's documented peek-ahead for number/date/time disambiguation.",
+  "ref": "DESIGN.md section 3 C11",
+ },
+ "C15": {
+  "technique": "exhaustive enumeration of the unit table (every unit x every identifier x 8 magnitudes x both codecs) plus property-based testing (proptest) of non-identifiers",
+  "level": "The positive half is finite and enumerated completely on every run (exhaustive: true); near-miss and random non-identifiers are generated. Held on everything explored.",
+  "note": "Units are listed from the source of units_generated.rs by the harness build script and compared with unit-gen/units.txt, independently of the UNITS map.",
+  "ref": "DESIGN.md section 3 C15",
+ },
+ "C16": {
+  "technique": "exhaustive enumeration of all ordered unit pairs (conversion, product, quotient) against the physical formula from units.txt, plus property-based testing (proptest) of Number arithmetic",
+  "level": "All ~196k ordered pairs x 7 magnitudes are enumerated on every run (exhaustive: true); Number + - * / over generated pairs. Held on everything explored.",
+  "note": "Tolerance 1e-9 relative to the operands; results beyond the f64 range are not compared; one-side-unit-less addition is left open by the statement and only counted.",
+  "ref": "DESIGN.md section 3 C16",
+ },
 }
